@@ -233,6 +233,6 @@ def view(spec):
 REQUIRED_STRATA = {"all": ["order:tsf_variables", "order:mw_meta", "order:error_item", "order:scripted_force"]}
 
 PARTS = {
-    "order": {"strategy": spec_thr, "check": check_order, "examples": {"quick": 600, "thorough": 12000}, "sample": view},
-    "race": {"strategy": spec_thr, "check": check_race, "examples": {"quick": 200, "thorough": 3000}, "sample": view},
+    "order": {"strategy": spec_thr, "check": check_order, "examples": {"quick": 1200, "thorough": 12000}, "sample": view},
+    "race": {"strategy": spec_thr, "check": check_race, "examples": {"quick": 400, "thorough": 3000}, "sample": view},
 }
